@@ -220,11 +220,16 @@ pub fn run(seed: u64, count: usize, max_n: usize, out: &mut impl Write) {
         let ef = read_ef(&base0);
         let dcf = read_dcf(&base0);
         let _ = std::fs::remove_file(base0.with_extension("offsets"));
+        // without an .offsets file `build ef` scans the graph itself
+        let _ = std::fs::remove_file(base0.with_extension("ef"));
+        let e_ef2 = exec(&[s("build"), s("ef"), p(&base0)], None, 60);
+        let ef2 = read_ef(&base0);
         let e_off = exec(&[s("build"), s("offsets"), p(&base0)], None, 60);
-        let extra = format!("ef={} dcf={} exits={},{},{},{}",
+        let extra = format!("ef={} ef2={} dcf={} exits={},{},{},{},{}",
             match &ef { Ok(v) => fmt_ints(v), Err(e) => e.clone() },
+            match &ef2 { Ok(v) => fmt_ints(v), Err(e) => e.clone() },
             match &dcf { Ok(v) => fmt_ints(v), Err(e) => e.clone() },
-            e_ef.code, e_dcf.code, e_chk.code, e_off.code);
+            e_ef.code, e_dcf.code, e_chk.code, e_off.code, e_ef2.code);
         cx.emit_set("build", &base0, &g, &e_off, &c0, &extra);
         // 4. to bvgraph (recompression), optionally sequential / dcf / with permutation
         let mut c1 = Conf::random(&mut rng, n);
